@@ -428,6 +428,595 @@ def rule_T9(ctx):
             ctx.ok(nm, "no step or read past the terminator on %d strings (truncated sequences included)" % n)
 
 
+def _ceval(e, env):
+    """Value of a condition under `env` (expression key -> int); None when something else occurs."""
+    k_ = key(e)
+    if k_ in env:
+        return env[k_]
+    k = e["k"]
+    if k == "int":
+        return e["v"]
+    if "cv" in e and e["cv"] is not None:
+        return e["cv"]
+    if k in ("cast", "paren"):
+        return _ceval(e["e"], env)
+    if k == "un" and e["op"] in ("!", "-"):
+        v = _ceval(e["e"], env)
+        return None if v is None else (int(not v) if e["op"] == "!" else -v)
+    if k == "bin" and e["op"] in ("<", "<=", ">", ">=", "==", "!="):
+        a, b = _ceval(e["l"], env), _ceval(e["r"], env)
+        if a is None or b is None:
+            return None
+        return int({"<": a < b, "<=": a <= b, ">": a > b, ">=": a >= b, "==": a == b, "!=": a != b}[e["op"]])
+    if k == "cond":
+        c = _ceval(e["c"], env)
+        if c is not None:
+            return _ceval(e["t"] if c else e["f"], env)
+        a, b = _ceval(e["t"], env), _ceval(e["f"], env)
+        return a if a == b else None
+    if k == "bin" and e["op"] in ("&&", "||"):
+        a, b = _ceval(e["l"], env), _ceval(e["r"], env)
+        if e["op"] == "&&":
+            if a == 0 or b == 0:
+                return 0
+            return None if a is None or b is None else 1
+        if (a is not None and a != 0) or (b is not None and b != 0):
+            return 1
+        return None if a is None or b is None else 0
+    return None
+
+
+def rule_S8(ctx):
+    """ec_edit marks the buffer saved only when its text is what the file holds: on every path
+    from the open() of the (re)load to lbuf_saved() either the read's status was tested zero, or
+    the buffer was tested empty, or -- failing both -- the buffer is a fresh one on every way in."""
+    ctx.begin("S8", floor=1, what="a reload that read nothing is not marked saved")
+    from ..cfg import enum_paths
+    prog = ctx.prog
+    f = prog.func("ec_edit", file="ex.c")
+    cfg = f.cfg
+    saved = list(f.calls("lbuf_saved"))
+    opens = list(f.calls("open"))
+    reads = list(f.calls("lbuf_rd"))
+    if not saved or not opens or not reads:
+        ctx.inconclusive("ec_edit", "reload marks saved only what was read",
+                         "open / lbuf_rd / lbuf_saved are not all in ec_edit itself")
+        return
+    rdvars = set()
+    for n, lv, op, rhs in stores(f.body):
+        if rhs is not None and op in ("=", "init") and is_call(strip_casts(rhs), "lbuf_rd") and lv["k"] in ("ref", "var"):
+            rdvars.add(lv["name"])
+    ob = cfg.pos(opens[0])[0]
+    for sv in saved:
+        sb = cfg.pos(sv)[0]
+        try:
+            paths = [p for p in enum_paths(cfg, ob, {sb}) if p[1] == sb]
+        except OverflowError:
+            raise AnalysisBroken("ec_edit: too many paths from open() to lbuf_saved()")
+        if not paths:
+            raise AnalysisBroken("ec_edit: lbuf_saved() not reachable from open()")
+        unjust = None
+        for items, _ in paths:
+            if not path_consistent(f, items):
+                continue
+            evs = [f.nodes.get(x[1]) for x in items if x[0] == "ev"]
+            did_read = any(e is not None and any(True for _ in calls_in(e, "lbuf_rd")) for e in evs) or \
+                any(x[0] == "br" and any(True for _ in calls_in(f.nodes[x[1]], "lbuf_rd")) for x in items)
+            ok = False
+            known = {}          # what the path has decided so far (conditions inside ?: arms)
+            for x in items:
+                if x[0] != "br":
+                    continue
+                c = f.nodes[x[1]]
+                t = int(bool(x[2]))
+                known = dict(known)
+                # the status of the read is zero
+                if did_read:
+                    envs = []
+                    for v in rdvars:
+                        envs += [{v: 1}, {v: -1}]
+                    for rc in calls_in(c, "lbuf_rd"):
+                        envs += [{key(rc): 1}, {key(rc): -1}]
+                    vals = [_ceval(c, dict(known, **e_)) for e_ in envs if any(k_ in key(c) for k_ in e_)]
+                    if vals and all(v is not None and v != t for v in vals):
+                        ok = True
+                # the buffer is empty
+                lens = list(calls_in(c, "lbuf_len"))
+                if lens:
+                    vals = [_ceval(c, dict(known, **{key(lens[0]): n_})) for n_ in (1, 7)]
+                    if all(v is not None and v != t for v in vals):
+                        ok = True
+                known[key(c)] = t
+            if not ok:
+                unjust = items
+                break
+        if unjust is None:
+            ctx.ok("ec_edit", "lbuf_saved() only after a read that returned 0 or on an empty buffer "
+                   "(%d paths from open())" % len(paths), loc=f.loc(sv))
+            continue
+        # every way to the open() creates a fresh buffer?
+        fresh = list(f.calls("bufs_open"))
+        hit = cfg.search(cfg.entry, lambda e: e == opens[0]["id"],
+                         avoid=lambda e: any(e == b_["id"] for b_ in fresh), start_block=True)
+        if fresh and hit is None:
+            ctx.ok("ec_edit", "the buffer is a fresh one whenever the load is attempted", loc=f.loc(sv))
+        else:
+            ctx.violation("ec_edit", "reload marks saved only what was read",
+                          "lbuf_saved() is reached from open() on a path where neither the read returned 0 nor "
+                          "the buffer is empty, and `:e!` without a file name reloads the current buffer (no "
+                          "bufs_open on that way in): when the file has disappeared or cannot be read, the text "
+                          "stays and is reported clean, so :q loses it", f.loc(sv))
+
+
+_TYBITS = {"char": 8, "signed char": 8, "unsigned char": 8, "short": 16, "unsigned short": 16,
+           "int": 32, "unsigned int": 32, "long": 64, "unsigned long": 64}
+
+
+def rule_G8(ctx):
+    """One bit of a line's mark per nesting level: every `1 << level` that is combined with a
+    mark cell uses a level below the cell's width.  The level is a parameter of the accessor;
+    at every call site it is a constant or a global counter, and every increment of that counter
+    is dominated by a test that keeps it inside the width."""
+    ctx.begin("G8", floor=2, what="nesting level fits the bits of a line's mark")
+    prog = ctx.prog
+    acc = {}           # accessor name -> (param index, max shift)
+    for f in prog.funcs.values():
+        if f.file != "lbuf.c":
+            continue
+        pn = [p_["name"] for p_ in f.params]
+        for n in f.walk():
+            if n["k"] != "bin" or n["op"] != "<<" or cval(n["l"]) != 1:
+                continue
+            r = strip_casts(n["r"])
+            if r["k"] != "ref" or r["name"] not in pn:
+                continue
+            # the mark cell the shifted bit is combined with
+            cells = []
+            for m in f.walk():
+                if m["k"] in ("bin", "var") and any(x["id"] == n["id"] for x in walk(m)):
+                    cells += [x for x in walk(m) if x["k"] == "sub" and strip_casts(x["base"])["k"] == "member"
+                              and strip_casts(x["base"])["field"] == "ln_glob"]
+            if not cells:
+                continue
+            bits = _TYBITS.get(cells[0].get("ty"))
+            if bits is None:
+                raise AnalysisBroken("%s: width of a mark cell (%s) unknown" % (f.name, cells[0].get("ty")))
+            mx = bits - 1 if bits < 32 else bits - 2
+            old = acc.get(f.name)
+            acc[f.name] = (pn.index(r["name"]), min(mx, old[1]) if old else mx)
+    if not acc:
+        raise AnalysisBroken("lbuf.c: no `1 << level` on ln_glob[] found")
+    counters = {}
+    for f in prog.funcs.values():
+        for c in f.calls():
+            if c.get("fn") not in acc:
+                continue
+            idx, mx = acc[c["fn"]]
+            a = strip_casts(c["args"][idx])
+            if cval(a) is not None:
+                if 0 <= cval(a) <= mx:
+                    ctx.ok(f.name, "%s with level %d" % (c["fn"], cval(a)), loc=f.loc(c))
+                else:
+                    ctx.violation(f.name, "nesting level fits a mark cell",
+                                  "%s is given level %d, a mark cell has bits 0..%d" % (c["fn"], cval(a), mx), f.loc(c))
+            elif a["k"] == "ref" and a.get("cat") in ("global", "sglobal", "static"):
+                counters.setdefault(a["name"], []).append((f, c, mx))
+            else:
+                ctx.inconclusive(f.name, "nesting level fits a mark cell",
+                                 "level argument %s of %s is neither a constant nor a global counter" % (key(a), c["fn"]),
+                                 f.loc(c))
+    for var, uses in sorted(counters.items()):
+        mx = min(u[2] for u in uses)
+        bad = None
+        nst = 0
+        for g in prog.funcs.values():
+            for n, lv, op, rhs in stores(g.body):
+                if lv["k"] != "ref" or lv["name"] != var or lv.get("cat") not in ("global", "sglobal", "static"):
+                    continue
+                nst += 1
+                if op in ("post--", "pre--"):
+                    incs = [m for m, lv2, op2, _ in stores(g.body) if lv2["k"] == "ref" and lv2["name"] == var
+                            and op2 in ("post++", "pre++")]
+                    if not any(g.cfg.dominates(i_, n) for i_ in incs):
+                        bad = (g, n, "is lowered without having been raised in %s (it could go negative)" % g.name)
+                    continue
+                if op == "=" and rhs is not None and cval(rhs) is not None and 0 <= cval(rhs) <= mx:
+                    continue
+                if op in ("post++", "pre++"):
+                    top = None
+                    for cc, t in _facts_plain(g, n["id"]):
+                        if cc["k"] != "bin" or cc["op"] not in ("<", "<=", ">", ">="):
+                            continue
+                        l, r = strip_casts(cc["l"]), strip_casts(cc["r"])
+                        op_ = cc["op"]
+                        if r["k"] == "ref" and r["name"] == var and cval(l) is not None:
+                            l, r = r, l
+                            op_ = {"<": ">", "<=": ">=", ">": "<", ">=": "<="}[op_]
+                        if not (l["k"] == "ref" and l["name"] == var and cval(r) is not None):
+                            continue
+                        K = cval(r)
+                        # the fact (var op_ K) == t gives an upper bound?
+                        if op_ == "<" and t:
+                            ub = K - 1
+                        elif op_ == "<=" and t:
+                            ub = K
+                        elif op_ == ">=" and not t:
+                            ub = K - 1
+                        elif op_ == ">" and not t:
+                            ub = K
+                        else:
+                            continue
+                        top = ub if top is None else min(top, ub)
+                    if top is None:
+                        bad = (g, n, "is raised without a test against a constant: from level %d on `1 << %s` "
+                               "no longer fits a mark cell and the nested global visits no line" % (mx + 1, var))
+                    elif top + 1 > mx:
+                        bad = (g, n, "can reach %d, a mark cell has bits 0..%d" % (top + 1, mx))
+                    continue
+                bad = (g, n, "is stored in a way that is not understood (%s)" % op)
+        if nst == 0:
+            raise AnalysisBroken("no store to %s found" % var)
+        if bad:
+            g, n, why = bad
+            ctx.violation(g.name, "nesting level fits a mark cell", "%s %s" % (var, why), g.loc(n))
+        else:
+            for f, c, _ in uses:
+                ctx.ok(f.name, "%s(%s): every increment of %s is under a test that keeps it <= %d" % (
+                    c["fn"], var, var, mx), loc=f.loc(c))
+
+
+def _facts_plain(g, nid):
+    out = []
+    for cid, t in g.cfg.facts_at(nid):
+        c = g.nodes.get(cid)
+        if c is None:
+            continue
+        c, t = negate_truth(c, t)
+        for part in (flatten_and(c) if t else flatten_or(c)):
+            p2, t2 = negate_truth(part, t)
+            out.append((p2, t2))
+    return out
+
+
+def _neval(e, env):
+    """Integer value of an expression; env maps variable names and call keys to ints."""
+    e = strip_casts(e)
+    k = e["k"]
+    if k == "int":
+        return e["v"]
+    if k == "ref":
+        return env.get(e["name"])
+    if k == "call":
+        return env.get(key(e))
+    if k == "paren":
+        return _neval(e["e"], env)
+    if k == "cond":
+        c = _neval(e["c"], env)
+        if c is None:
+            return None
+        return _neval(e["t"] if c else e["f"], env)
+    if k == "un" and e["op"] in ("!", "-"):
+        v = _neval(e["e"], env)
+        return None if v is None else (int(not v) if e["op"] == "!" else -v)
+    if k == "bin":
+        a, b = _neval(e["l"], env), _neval(e["r"], env)
+        if a is None or b is None:
+            return None
+        op = e["op"]
+        if op in ("<", "<=", ">", ">=", "==", "!="):
+            return int({"<": a < b, "<=": a <= b, ">": a > b, ">=": a >= b, "==": a == b, "!=": a != b}[op])
+        if op == "+":
+            return a + b
+        if op == "-":
+            return a - b
+        if op == "*":
+            return a * b
+        if op == "&&":
+            return int(bool(a) and bool(b))
+        if op == "||":
+            return int(bool(a) or bool(b))
+    return None
+
+
+def rule_G9(ctx):
+    """After each execution the global goes on scanning at or below every line it has yet to
+    visit.  Those lines were after the current one; they can have moved up, but not above the
+    lowest line that was changed.  So the resume index must be 0, or at most min(current index,
+    lowest change) where the lowest change comes from the line buffer: a field that
+    lbuf_replace lowers to its position on every path and that only its accessor raises.  With
+    nested globals the enclosing global's value is restored as min(its own, the inner one)."""
+    ctx.begin("G9", floor=2, what="the global resumes at or below the lines yet to visit")
+    import itertools
+    from ..bounds import path_states
+    from ..lin import prove_le, PROVEN
+    prog = ctx.prog
+    f = prog.func("ec_glob", file="ex.c")
+    cfg = f.cfg
+    execs = list(f.calls("ex_exec"))
+    if not execs:
+        raise AnalysisBroken("ec_glob does not call ex_exec")
+    ex = execs[0]
+    loops = cfg.loops()
+    xb_ = cfg.pos(ex)[0]
+    inloops = [h for h, body in loops.items() if xb_ in body]
+    if not inloops:
+        raise AnalysisBroken("ec_glob: ex_exec is not in a loop")
+    body = min((loops[h] for h in inloops), key=len)
+    # the scan index: first argument after the buffer of lbuf_globget in that loop
+    ivar = None
+    for c in f.calls("lbuf_globget"):
+        if cfg.pos(c)[0] in body and strip_casts(c["args"][1])["k"] == "ref":
+            ivar = strip_casts(c["args"][1])["name"]
+    if ivar is None:
+        raise AnalysisBroken("ec_glob: scan index of the mark test not found")
+    # the tracker accessor: an lbuf.c function that returns a field lbuf_replace stores
+    rep = prog.func("lbuf_replace", file="lbuf.c")
+    rep_fields = {}
+    for n, lv, op, rhs in stores(rep.body):
+        fld = lv_field(lv)
+        if fld and lv["k"] == "member":
+            rep_fields.setdefault(lv["field"], []).append((n, op, rhs))
+    tracker = None
+    for g in prog.funcs.values():
+        if g.file != "lbuf.c" or g is rep or not g.params:
+            continue
+        rets = [r for r in g.walk() if r["k"] == "return" and r.get("e") is not None]
+        if len(rets) != 1:
+            continue
+        rv = strip_casts(resolve_local(g, rets[0]["e"]))
+        if rv["k"] == "member" and rv.get("rec") == "lbuf" and rv["field"] not in ("ln_n", "ln_sz", "useq", "hist_n", "hist_u") \
+                and any(lv_["k"] == "member" and lv_["field"] == rv["field"] for _n, lv_, _o, _r in stores(g.body)):
+            if any(True for _ in f.calls(g.name)):
+                tracker = (g, rv["field"])
+    # the resume stores: stores to the scan index that ex_exec dominates, inside the loop, not the scan's own ++
+    resume = []
+    for n, lv, op, rhs in stores(f.body):
+        if lv["k"] == "ref" and lv["name"] == ivar and cfg.pos(n) and cfg.pos(n)[0] in body and \
+                cfg.dominates(ex, n) and op == "=":
+            resume.append((n, rhs))
+    if not resume:
+        # no store: the scan goes on from the current index -- fine only if nothing can move up
+        ctx.violation("ec_glob", "the scan resumes at or below the lines yet to visit",
+                      "after ex_exec the index %s is left as it is: lines that the command list moved up "
+                      "(by deleting above them) are stepped over" % ivar, f.loc(ex))
+        return
+    curvars, lovars = set(), set()
+    if tracker:
+        for n, lv, op, rhs in stores(f.body):
+            if rhs is not None and op in ("=", "init") and is_call(strip_casts(rhs), tracker[0].name) and lv["k"] in ("ref", "var"):
+                (curvars if cfg.dominates(ex, n) else lovars).add(lv["name"])
+    BIG = 50
+
+    def bounded(e, names_min, what):
+        """e <= min of names_min and e >= 0 for all small values, whatever the other variables hold"""
+        others = sorted({r_["name"] for r_ in refs(e)} - set(names_min))
+        callkeys = sorted({key(c_) for c_ in calls_in(e)})
+        for vals in itertools.product((0, 1, 2, 5), repeat=len(names_min)):
+            for ov in itertools.product((0, BIG), repeat=len(others) + len(callkeys)):
+                env = dict(zip(names_min, vals))
+                env.update(zip(others + callkeys, ov))
+                v = _neval(e, env)
+                if v is None:
+                    return "not evaluable"
+                if v > min(vals) or v < 0:
+                    return "with %s it is %d" % (", ".join("%s=%d" % kv for kv in sorted(env.items())), v)
+        return None
+
+    for n, rhs in resume:
+        e = strip_casts(resolve_local(f, rhs))
+        if cval(e) == 0:
+            ctx.ok("ec_glob", "the scan restarts at line 0 after each execution", loc=f.loc(n))
+            continue
+        names = [ivar] + sorted(curvars)
+        why = bounded(e, names, "resume") if curvars else "no value from the line buffer's change tracker is used"
+        if why is None:
+            ctx.ok("ec_glob", "resume index <= min(%s) and >= 0 for all values" % ", ".join(names), loc=f.loc(n))
+        elif why == "not evaluable":
+            ctx.inconclusive("ec_glob", "the scan resumes at or below the lines yet to visit",
+                             "resume expression %s not understood" % key(e), f.loc(n))
+        else:
+            ctx.violation("ec_glob", "the scan resumes at or below the lines yet to visit",
+                          "%s = %s is not bounded by the lowest changed line (%s): a command list that deletes "
+                          "lines above the current one and leaves the cursor below it (g/x/s/$/!/|1,2d|$) moves "
+                          "the lines yet to visit up past the resume point" % (ivar, key(e), why), f.loc(n))
+    if not tracker:
+        return
+    g, fld = tracker
+    # lbuf_replace lowers the field to its position on every path
+    posn = rep.params[2]["name"] if len(rep.params) >= 3 else None
+    try:
+        sts = path_states(rep, "exit")
+    except Exception as e_:
+        sts = None
+    okp = bool(sts)
+    if sts:
+        fk = "%s->%s" % (rep.params[0]["name"], fld)
+        for subst, hyps, items in sts:
+            cur = subst.get(fk)
+            if cur is None or prove_le(cur, Lin({posn: 1}), hyps) != PROVEN or prove_le(cur, Lin({fk: 1}), hyps) != PROVEN:
+                okp = False
+                break
+    if okp:
+        ctx.ok("lbuf_replace", "%s is lowered to min(itself, %s) on all %d paths" % (fld, posn, len(sts)))
+    else:
+        ctx.violation("lbuf_replace", "the change tracker is lowered by every splice",
+                      "a path through lbuf_replace leaves %s above the splice position %s" % (fld, posn),
+                      rep.loc(rep.body))
+    # nobody else stores it, except the accessor
+    for h in prog.funcs.values():
+        if h is rep or h is g:
+            continue
+        for n, lv, op, rhs in stores(h.body):
+            if lv["k"] == "member" and lv["field"] == fld and lv.get("rec") == "lbuf":
+                if h.name == "lbuf_make":
+                    continue
+                ctx.violation(h.name, "the change tracker is lowered by every splice",
+                              "%s stores %s" % (h.name, fld), h.loc(n))
+    # the enclosing global's value is restored, merged with what the inner execution changed
+    restores = [c for c in f.calls(g.name) if cfg.dominates(ex, c) and cfg.pos(c)[0] in body]
+    good, other = [], []
+    for c in restores:
+        a = strip_casts(resolve_local(f, c["args"][-1]))
+        if cval(a) == 0 or (lovars and curvars and bounded(strip_casts(c["args"][-1]), sorted(lovars) + sorted(curvars), "restore") is None):
+            good.append(c)          # 0 is always sound (the enclosing global restarts at the top)
+        else:
+            other.append(c)
+    if not lovars:
+        ctx.ok("ec_glob", "the tracker is not reset by the global (nothing to restore)")
+        return
+    # the last tracker call on every way from ex_exec to the exit or round the loop sets a sound value
+    hit = None
+    for st in [ex] + other:
+        hit = hit or cfg.search(cfg.pos(st), lambda e: e == ("exit",) or e == ex["id"],
+                                avoid=lambda e: any(e == c_["id"] for c_ in good))
+    if hit is None and good:
+        ctx.ok("ec_glob", "the enclosing global's tracker value is set to min(saved, inner) (or 0) on every "
+               "path after ex_exec", loc=f.loc(good[0]))
+    else:
+        ctx.violation("ec_glob", "the enclosing global's tracker is restored",
+                      "the tracker is reset before ex_exec, and on a path after it the last value set is not "
+                      "min(saved value, inner value): an enclosing global does not learn what the nested one "
+                      "changed and steps over lines", f.loc((other or [ex])[0]))
+
+
+def rule_Q1(ctx):
+    """Keys pushed back are read next, before what is still waiting in the queue: a `.` or `@`
+    that was itself read from the queue (a register holding `.dw`) must run in its place.
+    term_push is evaluated abstractly on a queue with consumed, waiting and free parts; the
+    unread part afterwards must be the pushed keys followed by the old waiting keys."""
+    ctx.begin("Q1", floor=1, what="pushed keys are read before the waiting ones")
+    prog = ctx.prog
+    f = prog.func("term_push", file="term.c")
+    gl = {nm: [g for g in prog.globals.get(nm, []) if g["file"] == "term.c"] for nm in ("ibuf", "ibuf_pos", "ibuf_cnt")}
+    if not all(gl.values()) or "arr_n" not in gl["ibuf"][0]:
+        raise AnalysisBroken("term.c: ibuf / ibuf_pos / ibuf_cnt not found")
+    N = gl["ibuf"][0]["arr_n"]
+    n = 0
+    for consumed, waiting, pushed in ((b"k", b"dw", b"x"), (b"", b"", b"abc"), (b"@a", b"", b"xy"),
+                                      (b"12", b"345", b"67"), (b"", b"zz", b"q")):
+        model = list(consumed + waiting) + [0] * (N - len(consumed) - len(waiting))
+        base = Ptr(tuple([0] * N + [0]))
+
+        def mv(ip, fn, e, args, env, model=model):
+            d, s_, k = args
+            if not (isinstance(d, Ptr) and isinstance(k, int)) or d.buf is not base.buf:
+                raise Unsupported("copy to something else than the queue")
+            if k < 0 or d.off < 0 or d.off + k > N:
+                raise OverRead(d.off + k, N)
+            if isinstance(s_, Ptr) and s_.buf is base.buf:
+                src = model[s_.off:s_.off + k]
+            elif isinstance(s_, Ptr):
+                src = [s_.read(i) for i in range(k)]
+            else:
+                raise Unsupported("copy source")
+            model[d.off:d.off + k] = src
+            return d
+        ip = Interp(prog, hooks={"memmove": mv, "memcpy": mv},
+                    globals_={"ibuf": base, "ibuf_pos": len(consumed), "ibuf_cnt": len(consumed) + len(waiting)})
+        try:
+            ip.call(f, [Ptr(tuple(pushed) + (0,)), len(pushed)])
+        except (Unsupported, OverRead) as e:
+            raise AnalysisBroken("term_push not evaluable: %s" % e)
+        pos = ip.last_env.get("ibuf_pos", len(consumed))
+        cnt = ip.last_env.get("ibuf_cnt", len(consumed) + len(waiting))
+        if not isinstance(pos, int) or not isinstance(cnt, int):
+            raise AnalysisBroken("term_push: queue indices not evaluable")
+        n += 1
+        got = bytes(model[pos:cnt])
+        if got != pushed + waiting:
+            ctx.violation("term_push", "pushed keys are read before the waiting ones",
+                          "with %r consumed and %r waiting, pushing %r leaves %r to be read (expected %r): keys "
+                          "pushed by a `.` or `@` that came from the queue itself run after the rest of it"
+                          % (consumed.decode(), waiting.decode(), pushed.decode(), got.decode("latin1"),
+                             (pushed + waiting).decode()), f.loc(f.body))
+            return
+    ctx.ok("term_push", "the unread part is the pushed keys followed by the waiting ones on %d queue states" % n)
+
+
+def rule_Q2(ctx):
+    """Every key handed to term_push is queued, or the caller is told: `N.` and `N@r` push N
+    copies, and copies that are dropped without a word make the replay differ from retyping.
+    term_push is evaluated abstractly on a queue with less room than the pushed text."""
+    ctx.begin("Q2", floor=1, what="pushed keys are not dropped silently")
+    prog = ctx.prog
+    f = prog.func("term_push", file="term.c")
+    gl = {nm: [g for g in prog.globals.get(nm, []) if g["file"] == "term.c"] for nm in ("ibuf", "ibuf_pos", "ibuf_cnt")}
+    if not all(gl.values()) or "arr_n" not in gl["ibuf"][0]:
+        # a queue of another kind (grown on demand): nothing to drop
+        if any(True for _ in f.calls(("realloc", "malloc"))):
+            ctx.ok("term_push", "the queue is grown on demand")
+            return
+        raise AnalysisBroken("term.c: ibuf / ibuf_pos / ibuf_cnt not found")
+    N = gl["ibuf"][0]["arr_n"]
+    base = Ptr(tuple([0] * N + [0]))
+    stored = []
+
+    def mv(ip, fn, e, args, env):
+        d, s_, k = args
+        if isinstance(d, Ptr) and d.buf is base.buf and isinstance(s_, Ptr) and s_.buf is not base.buf and isinstance(k, int):
+            stored.append(k)
+        return d
+    ip = Interp(prog, hooks={"memmove": mv, "memcpy": mv},
+                globals_={"ibuf": base, "ibuf_pos": N - 2, "ibuf_cnt": N - 2})
+    try:
+        rv = ip.call(f, [Ptr(tuple(b"hello") + (0,)), 5])
+    except (Unsupported, OverRead) as e:
+        raise AnalysisBroken("term_push not evaluable: %s" % e)
+    took = sum(stored)
+    void = f.ret_ty == "void" if hasattr(f, "ret_ty") else True
+    if took >= 5:
+        ctx.ok("term_push", "all keys are queued even when the fixed part of the queue is full")
+        return
+    told = isinstance(rv, int) and rv != 0
+    users = [(g, c) for g in prog.funcs.values() for c in g.calls("term_push")]
+    checked = told and all(enclosing(g, c["id"], ("if", "while", "for", "cond", "return")) is not None or
+                           any(c["id"] in [x["id"] for x in walk(rhs)] for _n, _lv, _op, rhs in stores(g.body) if rhs is not None)
+                           for g, c in users)
+    if checked:
+        ctx.ok("term_push", "a short push is reported and every caller looks at the result")
+    else:
+        ctx.violation("term_push", "every pushed key is queued",
+                      "with room for 2 more keys, pushing 5 queues %d and %s: `N.` / `N@r` whose N copies exceed the "
+                      "%d-byte queue are cut in the middle of a copy (ihello<Esc>700. inserts 512 copies and leaves the "
+                      "last one open)" % (took, "returns nothing" if not told else "the callers ignore the result", N),
+                      f.loc(f.body))
+
+
+def rule_T10(ctx):
+    """A typed multi-byte character is read whole: led_readchar, evaluated abstractly for every
+    kind of lead byte with its static buffer in the initial (all zero) state, reads exactly the
+    number of continuation bytes the lead byte announces and returns them as one string."""
+    ctx.begin("T10", floor=1, what="typed multi-byte characters are read whole")
+    prog = ctx.prog
+    fn = prog.func("led_readchar", file="led.c")
+    n = 0
+    for c, want in ((0xc3, 2), (0xdf, 2), (0xe2, 3), (0xef, 3), (0xf0, 4), (0xf4, 4)):
+        reads = []
+
+        def term_read(it, f, e, args, env):
+            reads.append(1)
+            return 0x80 + len(reads)
+        try:
+            v = Interp(prog, hooks={"term_read": term_read}).call(fn, [c, 0])
+        except (Unsupported, OverRead) as e:
+            raise AnalysisBroken("led_readchar not evaluable: %s" % e)
+        n += 1
+        got = None
+        if isinstance(v, dict):
+            got = [v.get(i) for i in range(want + 1)]
+        elif isinstance(v, Ptr):
+            got = [v.read(i) for i in range(want + 1)]
+        exp = [c] + [0x81 + i for i in range(want - 1)] + [0]
+        if len(reads) != want - 1 or got != exp:
+            ctx.violation("led_readchar", "a typed multi-byte character is read whole",
+                          "lead byte 0x%02x announces %d bytes but %d more %s read and the returned string is %s: "
+                          "the rest of the character is taken for commands (the length is asked of a buffer "
+                          "that holds only the lead byte)" % (c, want, len(reads), "is" if len(reads) == 1 else "are", got),
+                          fn.loc(fn.body))
+            return
+    ctx.ok("led_readchar", "reads exactly the announced continuation bytes for %d kinds of lead byte" % n)
+
+
 def rule_R14(ctx):
     """Ignore-case in a bracket range: a character matches [X-Y] when it or its other case lies
     in the range as written.  brk_match is evaluated abstractly for every range over a set of
@@ -482,4 +1071,4 @@ def rule_R14(ctx):
 
 
 RULES = {"M5": rule_M5, "L6": rule_L6, "P3": rule_P3, "X9": rule_X9, "U6": rule_U6, "T7": rule_T7,
-         "T8": rule_T8, "S6": rule_S6, "S7": rule_S7, "B15": rule_B15, "T9": rule_T9, "R14": rule_R14}
+         "T8": rule_T8, "S6": rule_S6, "S7": rule_S7, "B15": rule_B15, "T9": rule_T9, "T10": rule_T10, "Q2": rule_Q2, "Q1": rule_Q1, "G9": rule_G9, "G8": rule_G8, "S8": rule_S8, "R14": rule_R14}
